@@ -24,4 +24,11 @@ PASSFACTS = ("Gen/PassFacts", "PassFacts")
 ASMBP = ("Oracle/AsmBP", "AsmBP")
 BRANCHOPS = ("Gen/BranchOps", "BranchOps")
 
-ALL_MODULES = [BRANCHOPS, PASSFACTS, MAPRANGES, TEXTFLAGS, TEXTFLAGH, REGS, REGHW] + forms_modules() + ctors_modules() + [MOV, TAGCHARS, CONSTS, ASMBP]
+# C04: the compiled form table (x86.VerifForms) as compact rows for the structural facts (8 shards + meta + appender)
+FORMACTION_SHARDS = 8
+def formactions_modules():
+    return ([("Gen/FormActionsMeta", "FormActionsMeta")] +
+            [(f"Gen/FormActions_{i:02d}", f"FormActions_{i:02d}") for i in range(FORMACTION_SHARDS)] +
+            [("Gen/FormActions", "FormActions")])
+
+ALL_MODULES = [BRANCHOPS, PASSFACTS, MAPRANGES, TEXTFLAGS, TEXTFLAGH, REGS, REGHW] + forms_modules() + ctors_modules() + [MOV, TAGCHARS, CONSTS, ASMBP] + formactions_modules()
